@@ -93,6 +93,7 @@ CheckRecord(k) ==
          /\ (IF c.op = "edif_read" THEN Report("FAIL", k, EdifReadClauses(pre, c, r.out, post, RetOf(r))) ELSE TRUE)
          /\ (IF c.op = "edif_rt" THEN Report("FAIL", k, EdifRtClauses(pre, c, r.out, post, RetOf(r), r)) ELSE TRUE)
          /\ (IF c.op = "edif_rt" THEN Report("FAIL", k, EdifNameClauses(pre, c, r.out, post, RetOf(r), r)) ELSE TRUE)
+         /\ (IF c.op = "parse_text" THEN Report("FAIL", k, ParseClauses(pre, c, post, RetOf(r), r)) ELSE TRUE)
          /\ (IF c.op = "compose2" THEN Report("FAIL", k, ComposeClauses(c, r.out, FullPre(r), FullPost(r), r)) ELSE TRUE)
          /\ (IF c.op = "eblif_read" THEN Report("FAIL", k, EblifReadClauses(pre, c, r.out, post, RetOf(r))) ELSE TRUE)
          /\ (IF c.op = "eblif_rt" THEN Report("FAIL", k, EblifRtClauses(pre, c, r.out, post, RetOf(r), r)) ELSE TRUE)
@@ -106,7 +107,7 @@ CheckRecord(k) ==
                                        <<"C19_BeforeEffect", C19_BeforeEffect(r.ann)>>,
                                        <<"C19_Transparent", IF "agree" \in DOMAIN r THEN r.agree ELSE TRUE>> >>)
              ELSE TRUE)
-         /\ (IF Strict /\ c.op \notin {"uniquify", "flatten", "q", "edif_read", "edif_rt", "vlog_read", "vlog_rt", "eblif_read", "eblif_rt", "compose2"}
+         /\ (IF Strict /\ c.op \notin {"uniquify", "flatten", "q", "edif_read", "edif_rt", "vlog_read", "vlog_rt", "eblif_read", "eblif_rt", "compose2", "parse_text"}
              THEN Report("DRIFT", k, StrictClauses(pre, c, r.out, post, RetOf(r))) ELSE TRUE)
 
 Init == l = 0
